@@ -75,7 +75,22 @@ def run(repo: Repo, chk: Check, thorough: bool = False) -> None:
            'the `builtins.` qualifier is handled' if qualified else
            '`class E(builtins.Exception)` is documented as a plain class: the expanded base name `builtins.Exception` is compared with the bare names of the table',
            ie.loc)
-    chk.require('R03.1', 60)
+    # "along the MRO" means to its end: the only verdict the loop may give early is `True` under the table test.  Any other exit from the loop (the kind an
+    # intermediate project class happens to have at that moment, a `break`) makes the answer depend on the order in which the classes are post-processed
+    # and misses an exception base that comes after a mix-in
+    loops_ie = [lp for lp in ie.walk() if isinstance(lp, ast.For) and isinstance(lp.iter, ast.Call) and call_name(lp.iter) == 'mro']
+    if not loops_ie:
+        raise AnalysisError('R03.1: the loop over cls.mro(...) of is_exception was not found')
+    cfie = CFG(ie)
+    for lp in loops_ie:
+        early = [x for x in loop_exits(lp) if not (isinstance(x, ast.Return) and isinstance(x.value, ast.Constant) and x.value.value is True and
+                                                   any(pol and isinstance(t, ast.Compare) and isinstance(t.ops[0], ast.In) and '_STD_LIB_EXCEPTIONS' in norm(t)
+                                                       for t, pol in cfie.dominating_tests(x)))]
+        chk.ob('R03.1', 'model.is_exception :: the whole linearisation is searched', not early,
+               'the only exit of the loop is `return True` under the table test' if not early else
+               f'`{norm(early[0])[:60]}` ends the search at an intermediate class: `class E(Tagged, ValueError)` (a mix-in first) and a class whose base is post-processed '
+               'later are documented as plain classes although Python has exception classes', repo.loc(ie.mod, early[0] if early else lp))
+    chk.require('R03.1', 61)
 
     # ------------------------------------------------------------------ R03.2
     hf = repo.func(f'{MV}._handleFunctionDef')
